@@ -145,6 +145,11 @@ def run_one(text, langs, adl, base):
 
 def classify_blank():
     import regex as re
+    from ..hooks import UNAVAILABLE
+
+    if any(k.startswith("tap:") for k in UNAVAILABLE):
+        # the search internals were refactored and the taps that tell the mechanisms apart cannot be installed
+        return "unclassified(taps-unavailable)"
 
     returned_blank = any(any(not norm_ws(s) for s in b) for b in TAPS["best"])
     misaligned = False
